@@ -27,6 +27,16 @@ class Token:
         return f"<{self.name}>"
 
 
+class Joined:
+    """the value of StringIO.getvalue(): the concatenation of content chunks"""
+
+    def __init__(self, atoms):
+        self.atoms = list(atoms)
+
+    def __repr__(self):
+        return "<" + "+".join(map(repr, self.atoms)) + ">"
+
+
 class FileModel(Ext):
     """Text file object.  TRUSTED semantics: write() buffers (any prefix of the buffer may already
     be on disk), flush() makes the buffer durable, seek(0) flushes and moves the position,
@@ -64,7 +74,10 @@ class FileModel(Ext):
     def py_getattr(self, I, name):
         if name == "write":
             def write(I_, a, k):
-                self.buffer.append(a[0])
+                if isinstance(a[0], Joined):
+                    self.buffer.extend(a[0].atoms)
+                else:
+                    self.buffer.append(a[0])
                 self._snap("write", a[0])
             return Builtin("file.write", write)
         if name == "flush":
@@ -93,6 +106,11 @@ class FileModel(Ext):
                 self.closed = True
                 self._snap("close")
             return Builtin("file.close", close)
+        if name == "getvalue":          # in-memory text buffers (io.StringIO)
+            def getvalue(I_, a, k):
+                self._flush()
+                return Joined(self.durable)
+            return Builtin("StringIO.getvalue", getvalue)
         if name == "closed":
             return self.closed
         if name == "seekable":
@@ -150,6 +168,9 @@ def build(S, tier):
             I_.call(I_.getattr(fd, "write"), [Token(f"frame{n}-head", complete=False)], {})
             I_.call(I_.getattr(fd, "write"), [Token(f"frame{n}-rest", complete=False)], {})
         I.loader.models["ase.io.extxyz"].attrs["write_xyz"] = Builtin("write_xyz", write_xyz)
+        if "io" in I.loader.models:
+            # io.StringIO: an in-memory text file (same position / overwrite semantics as a file opened "w+")
+            I.loader.models["io"].attrs["StringIO"] = Builtin("StringIO", lambda I_, a, k: FileModel("w"))
 
     class SimProbe(Ext):
         type_name = "Driver(probe)"
@@ -234,12 +255,14 @@ def build(S, tier):
             f, n1, ini = v["f"], v["n1"], v["ini"]
             c1, c2 = f.ops[:n1], f.ops[n1:]
             for tag, ops_ in (("first", c1), ("second", c2)):
-                S.prove(f"{fq}#ensures.one_frame_then_flush[{mode},{tag} call]@{i}", [o[0] for o in ops_] == ["write", "write", "flush"], kind="ensures", why=str([o[0] for o in ops_]))
+                S.prove(f"{fq}#ensures.call_ends_with_a_flush_and_nothing_buffered[{mode},{tag} call]@{i}", bool(ops_) and ops_[-1][0] == "flush" and not ops_[-1][3], kind="ensures", why=str([o[0] for o in ops_]))
             S.prove(f"{fq}#frame.no_seek_or_truncate_on_the_trajectory[{mode}]@{i}", not any(k in ("seek", "truncate", "close") for k in kinds(f)), kind="frame", why=str(kinds(f)))
-            if [o[0] for o in c1] == ["write", "write", "flush"] and [o[0] for o in c2] == ["write", "write", "flush"]:
+            if c1 and c2:
                 d1, d2 = c1[-1][2], c2[-1][2]
+                names = lambda d: [getattr(t, "name", t) for t in d]
                 S.prove(f"{fq}#ensures.one_complete_frame_per_call_earlier_bytes_untouched[{mode}]@{i}",
-                        len(d1) == ini + 2 and len(d2) == ini + 4 and d2[:len(d1)] == d1 and not c2[-1][3], kind="ensures", why=f"{d1} / {d2}")
+                        names(d1)[ini:] == ["frame0-head", "frame0-rest"] and names(d2)[ini:] == ["frame0-head", "frame0-rest", "frame1-head", "frame1-rest"] and d2[:len(d1)] == d1 and not c2[-1][3],
+                        kind="ensures", why=f"file content after the first call {d1}, after the second {d2}")
                 done = []
                 for o in c2:
                     done.append(o[0])
